@@ -10,6 +10,9 @@ FILE="${3:-}"
 HERE="$(cd "$(dirname "$0")" && pwd)"
 cd "$HERE/harness" || exit 2
 export CARGO_NET_OFFLINE=true
+# everything is relative to this script, so a snapshot copy of /verif is self-contained
+export VERIF_DIR="$HERE"
+export CARGO_TARGET_DIR="$HERE/harness/target"
 export VERIF_SEED="${VERIF_SEED:-1}"
 mkdir -p "$HERE/evidence" "$HERE/replays"
 LOG="$HERE/harness/target/build_${ID}.log"
